@@ -503,12 +503,66 @@ def run_check_derived(acc):
     acc.sample({"decorator": "check", "specs": ["[mass]/[volume]"], "values": ["3 kilogram/meter**3"], "expected": "called"})
 
 
+def run_after_refusals(acc):
+    """'incompatible arguments raise DimensionalityError' — on every call, also after earlier calls were refused or raised:
+    all sequences of <= 3 calls to decorated functions (wraps / check, bare or stacked under ureg.with_context('sp'), given a
+    good argument, a wrong-dimension argument, or raising themselves) followed by the probes: a frequency-declared wraps and a
+    [frequency] check handed a LENGTH must still refuse it, and a good call must still receive the converted magnitude"""
+    def build():
+        ureg = regs.default("float", fresh=True)
+        rec = []
+
+        def f(x):
+            rec.append(x)
+            return 1
+
+        def boom(x):
+            raise RuntimeError("raised inside the wrapped function")
+
+        fs = {
+            "wraps": ureg.wraps(None, "terahertz")(f),
+            "check": ureg.check("[frequency]")(f),
+            "ctx(wraps)": ureg.with_context("sp")(ureg.wraps(None, "terahertz")(f)),
+            "ctx(check)": ureg.with_context("sp")(ureg.check("[length]")(f)),
+            "ctx(raising)": ureg.with_context("sp")(ureg.wraps(None, "meter")(boom)),
+            "wraps(raising)": ureg.wraps(None, "meter")(boom),
+        }
+        return ureg, fs, rec
+
+    args = {"frequency": lambda u: u.Quantity(600.0, "terahertz"), "length": lambda u: u.Quantity(500.0, "nanometer"), "time": lambda u: u.Quantity(3.0, "second")}
+    events = [(fn, a) for fn in ("wraps", "check", "ctx(wraps)", "ctx(check)", "ctx(raising)", "wraps(raising)") for a in args]
+    ureg, fs, rec = build()
+    for n in (1, 2, 3):
+        for seq in itertools.product(events, repeat=n):
+            if n == 3 and not any(e[0].startswith("ctx") for e in seq):
+                continue
+            ureg.disable_contexts()  # (one registry for all sequences: whatever the previous one left is cleared first)
+            for fn, a in seq:
+                call(lambda: fs[fn](args[a](ureg)))
+            acc.ev()
+            acc.nt(("after-refusals", seq))
+            case = {"calls": [list(e) for e in seq]}
+            o1 = call(lambda: fs["wraps"](args["length"](ureg)))
+            o2 = call(lambda: fs["check"](args["length"](ureg)))
+            del rec[:]
+            o3 = call(lambda: fs["wraps"](ureg.Quantity(1.0, "petahertz")))
+            o4 = len(ureg._active_ctx.contexts)
+            if o1 != ("exc", "DimensionalityError") or o2 != ("exc", "DimensionalityError"):
+                acc.violation(["wraps" if o1 != ("exc", "DimensionalityError") else "check", "errors", "wrong-dimension-accepted-after-earlier-decorated-calls", "after-" + seq[-1][0]], case, "DimensionalityError", repr([o1, o2])[:160])
+            elif o3 != ("ok", 1) or len(rec) != 1 or abs(rec[0] - 1000.0) > 1e-9:
+                acc.violation(["wraps", "hand-over", "argument-received-differs-from-declared-conversion", "after-earlier-decorated-calls"], case, 1000.0, repr((o3, rec))[:160])
+            elif o4:
+                acc.violation(["wraps", "call", "context-left-active-by-a-decorated-call", "after-" + seq[-1][0]], case, 0, o4)
+    acc.outcome("after-refusals")
+    acc.sample({"clause": "after-refusals", "calls": [["ctx(check)", "time"]], "probe": "wraps(None, 'terahertz')(f)(500 nm) must raise DimensionalityError"})
+
+
 def shards(tier, seed):
     out = [("wraps", 1, 0, 1), ("wraps", 2, 0, 1)]
     out += [("wraps", 3, b, 12) for b in range(12)]
     if tier == "thorough":
         out += [("wraps", 4, b, 16) for b in range(16)]
-    out += [("returns",), ("check", 1), ("check", 2), ("check", 3), ("arrays",), ("check-derived",)]
+    out += [("returns",), ("check", 1), ("check", 2), ("check", 3), ("arrays",), ("check-derived",), ("after-refusals",)]
     return out
 
 
@@ -524,6 +578,8 @@ def run_shard(acc, shard, tier, seed):
         run_check(acc, shard[1])
     elif k == "check-derived":
         run_check_derived(acc)
+    elif k == "after-refusals":
+        run_after_refusals(acc)
     else:
         raise core.HarnessError(str(shard))
 
@@ -531,7 +587,9 @@ def run_shard(acc, shard, tier, seed):
 def replay(rec):
     site, case = rec["site"], rec["case"]
     acc = core.Acc(PROPERTY)
-    if site[0] == "check" and site[-1] == "derived":
+    if "calls" in case:
+        run_after_refusals(acc)
+    elif site[0] == "check" and site[-1] == "derived":
         run_check_derived(acc)
     elif site[0] == "check":
         for n in (1, 2, 3):
@@ -562,3 +620,4 @@ MANIFEST = {
 }
 MANIFEST["text"] += " Derived-dimension specs: 17 specs naming derived dimensions alone or in expressions with their own exponent ('[mass]/[volume]', '1/[volume]', '[velocity]**2', '[pressure]', ...) x 14 values through ureg.check and Quantity.check against hand-written (L, M, T) exponents, and 8x8 two-parameter spec pairs x 7x7 value pairs."
 MANIFEST["text"] += ' Zero-magnitude quantities and bare 0 are in the value alphabets (by position and by keyword over a default).'
+MANIFEST["text"] += " After refusals: all sequences of <= 3 calls to 6 decorated functions (wraps / check, bare or stacked under with_context, some raising themselves) x 3 arguments, then a frequency-declared wraps and check handed a length must still refuse it, a good call must receive the converted magnitude, and no context may be left active."
